@@ -212,6 +212,39 @@ var decodeAnyAllow = map[string]string{
 	"internal.checkForExtraFields":             "only the key set of the decoded object is inspected",
 }
 
+// decodeAllowedByCallers: an unexported helper all of whose callers are allowed decode sites (a
+// piece of one of them moved into a function) inherits their reason.
+func decodeAllowedByCallers(c *core.Ctx, f *types.Func, depth int) string {
+	if f == nil || f.Exported() || depth > 2 {
+		return ""
+	}
+	why := ""
+	n := 0
+	for _, s := range index(c).SitesOf(f) {
+		if s.Encl == nil || strings.HasSuffix(c.Prog().Rel(s.Call.Pos()), "_test.go") {
+			continue
+		}
+		n++
+		caller := load.FuncObj(s.Pkg, s.Encl)
+		if caller == nil {
+			return ""
+		}
+		if w, ok := decodeAnyAllow[astx.FuncKey(caller)]; ok {
+			why = w
+			continue
+		}
+		if w := decodeAllowedByCallers(c, caller, depth+1); w != "" {
+			why = w
+			continue
+		}
+		return ""
+	}
+	if n == 0 {
+		return ""
+	}
+	return why
+}
+
 // containsAny reports a path to an empty-interface slot reachable by the default JSON decoder
 // from t; it stops at types that define their own UnmarshalJSON (those bodies are scanned as
 // functions of their own).
@@ -477,6 +510,10 @@ func ruleDecodeSites(c *core.Ctx) {
 						}
 						if why, ok := decodeAnyAllow[fkey]; ok {
 							c.Pass("NUM/decode-any", key, pos(c, call), "allowed: "+why)
+							continue
+						}
+						if why := decodeAllowedByCallers(c, load.FuncObj(pk, fd), 0); why != "" {
+							c.Pass("NUM/decode-any", key, pos(c, call), "allowed (helper of): "+why)
 							continue
 						}
 						c.Check(useNum, "NUM/decode-any", key, pos(c, call), "UseNumber before decoding into "+slot, "JSON is decoded into "+slot+" (an `any` slot) without UseNumber: a numeric amount arrives as float64 and loses digits above 2^53")
